@@ -115,4 +115,41 @@ CHECKS = {
         ],
         "assumptions": ["exact string equality only where the in-memory string is valid UTF-8 (encoding/json replaces invalid bytes)"],
     },
+    "C06": {
+        "parts": [
+            {"test": "TestC06", "quick": 2500, "thorough": 20000, "shards": 16, "quick_shards": 2},
+        ],
+        "assumptions": ["file sizes up to 20000 bytes; bodies without unbounded greedy loops (cost of the VM is quadratic in the run length); local filesystem"],
+    },
+    "C07": {
+        "parts": [
+            {"test": "TestC07Reader", "quick": 4000, "thorough": 10000, "shards": 16, "quick_shards": 2},
+            {"test": "TestC07Files", "quick": 700, "thorough": 1500, "shards": 16, "quick_shards": 2},
+        ],
+        "assumptions": ["files up to 20000 bytes (five buffer windows); the reader is driven with the engine's two access shapes only (seek-then-read, ReadAt)"],
+    },
+    "C18": {
+        "cli": True,
+        "parts": [
+            {"test": "TestC18Sample", "quick": 800, "thorough": 800, "shards": 1, "only_tier": "quick"},
+            {"test": "TestC18All", "rapid": False, "quick": 0, "thorough": 0, "shards": 16, "only_tier": "thorough"},
+        ],
+        "assumptions": ["the binary is built from /repo's working tree by the check; under -no-output only exit status and file effects are asserted; with zero matches no JSON is required"],
+    },
+    "C19": {
+        "race": True,
+        "tags": "",
+        "parts": [
+            {"test": "TestC19", "quick": 60, "thorough": 500, "shards": 4, "quick_shards": 1, "race": True, "shrinktime": "5s"},
+        ],
+        "assumptions": ["schedules are those the Go scheduler produces (20 repetitions per job set, GOMAXPROCS 2 and 16); the race detector sees unsynchronised accesses that occur in one execution",
+                        "built with -race and without the verif tag (the hook counter would add synchronisation)"],
+    },
+    "C20": {
+        "parts": [
+            {"test": "TestC20Table", "rapid": False, "quick": 0, "thorough": 0, "shards": 1},
+            {"test": "TestC20Trees", "quick": 3000, "thorough": 5000, "shards": 16},
+        ],
+        "assumptions": ["star-only directory segments and ./.. segments excluded as the property says; paths compared after filepath.Clean"],
+    },
 }
